@@ -169,6 +169,9 @@ impl C08 {
                     let mut want = v0.clone();
                     if inc {
                         h.out.count("increases_ok");
+                        if d.chars().any(|c| c.is_ascii_uppercase()) {
+                            h.out.count("grants_in_denominations_spelt_with_capital_letters");
+                        }
                         if pre_expired {
                             h.out.count("regrants_after_expiry_ok");
                         }
@@ -341,6 +344,7 @@ impl Monitor for C08 {
             "spends_at_exact_expiry_height_rejected",
             "spends_one_block_before_expiry_ok",
             "increases_ok",
+            "grants_in_denominations_spelt_with_capital_letters",
             "decreases_ok",
             "decreases_beyond_allowance_saturated",
             "regrants_after_expiry_ok",
@@ -350,7 +354,7 @@ impl Monitor for C08 {
         ]
     }
     fn rule(&self) -> &'static str {
-        "12 directed histories (all orders of {increase, decrease, two-message spend} one block before and exactly at the expiry) then seeded random histories on cw1-subkeys with 3 denominations, multi-coin / multi-message sends, grants and decreases with all expiry kinds and block advances onto expiry boundaries; after every call the stored allowances of all pool subkeys are read back and compared with an exact per-denomination deduction model and a cumulative granted/spent ledger; Allowance, AllAllowances, Permissions and AllPermissions (through the query entry point) must show exactly the stored, unexpired grants; every third history is upgraded in mid-life through the real migrate. distinct = (op class, outcome, model reason, has bank send?, several sends?, allowance missing/expired/live) and (grant kind, outcome, admin?, previous expired?, existed?, expiry given?)"
+        "12 directed histories (all orders of {increase, decrease, two-message spend} one block before and exactly at the expiry) then seeded random histories on cw1-subkeys with 3 everyday denominations (and now and then an unknown one or one spelt with capital letters, as IBC vouchers are; sends also try the lower-case spelling), multi-coin / multi-message sends, grants and decreases with all expiry kinds and block advances onto expiry boundaries; after every call the stored allowances of all pool subkeys are read back and compared with an exact per-denomination deduction model and a cumulative granted/spent ledger; Allowance, AllAllowances, Permissions and AllPermissions (through the query entry point) must show exactly the stored, unexpired grants; every third history is upgraded in mid-life through the real migrate. distinct = (op class, outcome, model reason, has bank send?, several sends?, allowance missing/expired/live) and (grant kind, outcome, admin?, previous expired?, existed?, expiry given?)"
     }
     fn assumptions(&self) -> Vec<&'static str> {
         vec![
